@@ -11,6 +11,7 @@ of sampled histories (labelled PARTIAL): the block-level operations are not mode
 -/
 import GoNfsd.Lemmas.MultiShrink
 import GoNfsd.Lemmas.FsckBridge
+import GoNfsd.Lemmas.MultiRegion
 import GoNfsd.Lemmas.MultiTree
 import GoNfsd.Gen.Skeleton
 import GoNfsd.Lemmas.InodeTable
@@ -536,6 +537,30 @@ theorem checker_one_owner_on_every_reachable_image (allocs : List Nat)
         (ops.foldl GoNfsd.Model.BlockMap.mapply ({ st := GoNfsd.Model.BlockMap.emptyStore, allocs := allocs }, fun _ => List.replicate (NDIRECT + 2) 0)).1.st
         (files.map fun a => (a, (ops.foldl GoNfsd.Model.BlockMap.mapply ({ st := GoNfsd.Model.BlockMap.emptyStore, allocs := allocs }, fun _ => List.replicate (NDIRECT + 2) 0)).2 a))) = true :=
   GoNfsd.Model.BlockMap.imageOf_one_owner _ _ (one_owner_across_files_after_any_history allocs hd ops hv) files hn
+
+/-- ... and the checker's "every pointer lies inside the data region" as well, provided the numbers
+    the allocator starts with and the numbers handed back to it lie there (which C15 proves of the
+    formatted bitmap and C05 / M8b of the frees): every pointer of every file was taken from the
+    allocator (`StepOK.fromAllocs`), truncation only removes pointers. -/
+theorem checker_pointers_in_the_data_region_on_every_reachable_image (sz : Nat) (allocs : List Nat)
+    (hd : GoNfsd.Model.BlockMap.DistinctNZ allocs) (ops : List GoNfsd.Model.BlockMap.MOp)
+    (hv : GoNfsd.Model.BlockMap.MValid ({ st := GoNfsd.Model.BlockMap.emptyStore, allocs := allocs }, fun _ => List.replicate (NDIRECT + 2) 0) ops)
+    (ha : ∀ x ∈ allocs, x ≠ 0 → (GoNfsd.Gen.Super.MkFsSuper sz).DataStart ≤ x ∧ x < sz)
+    (hrec : GoNfsd.Model.BlockMap.RecycleInRegion (GoNfsd.Gen.Super.MkFsSuper sz).DataStart sz ops)
+    (files : List Nat) :
+    GoNfsd.Model.Fsck.chkPtrs
+      (GoNfsd.Model.BlockMap.imageOfSz sz
+        (ops.foldl GoNfsd.Model.BlockMap.mapply ({ st := GoNfsd.Model.BlockMap.emptyStore, allocs := allocs }, fun _ => List.replicate (NDIRECT + 2) 0)).1.st
+        (files.map fun a => (a, (ops.foldl GoNfsd.Model.BlockMap.mapply ({ st := GoNfsd.Model.BlockMap.emptyStore, allocs := allocs }, fun _ => List.replicate (NDIRECT + 2) 0)).2 a))) = true :=
+  GoNfsd.Model.BlockMap.imageOf_ptrs_in_region sz _ _ (one_owner_across_files_after_any_history allocs hd ops hv)
+    (GoNfsd.Model.BlockMap.mhistory_region _ sz ops _ (GoNfsd.Model.BlockMap.MWF_empty allocs hd) hv hrec
+      (GoNfsd.Model.BlockMap.region_empty _ sz allocs ha)) files
+
+/-- the test is not vacuous: a pointer into the inode table fails it (disk of 2000 blocks) -/
+example : GoNfsd.Model.Fsck.chkPtrs
+    { (default : GoNfsd.Model.Fsck.Image) with
+      inodes := [{ inum := 2, kind := 1, nlink := 1, gen := 0, size := 0, shrink := 0, blks := [600, 0, 0, 0, 0, 0, 0, 0, 0, 0] }],
+      sz := 2000 } = false := by decide
 
 /-- the test is not vacuous on images: two inodes pointing at one block fail it, and so does an
     inode whose index block repeats a direct pointer -/
